@@ -129,6 +129,17 @@ class C02(SessionProp):
         out = []
         for chunks in ([s[:1], s[1:]], [bytes([b]) for b in s], [s[:2], s[2:40], s[40:]]):
             out.append({"role": 1, "pre": [], "msgs": [m1, m2, m3], "chunks": chunks, "calls": [[RECV, c] for c in chunks], "meta": None})
+        # first message to a session that has seen nothing yet, carrying octets that are another protocol's opening
+        # (TLS record 16 03 0x - as content, and as length octet 0x16 followed by content 03 0x -, SSLv2, HTTP, SSH):
+        # one case per cut position, so that every chunk start is tried
+        magics = [bytes([3, 1]) + b"\x00" * 20, bytes([3, 3]) + b"\x01" * 20, bytes([0x16, 3, 1, 0, 5]) + b"hello", bytes([0x16, 3, 3]) + b"\x00" * 19,
+                  bytes([0x80, 0x2E, 1, 3, 1]), b"GET / HTTP/1.1\r\n\r\n", b"SSH-2.0-OpenSSH_9.6\r\n"]
+        for i, mg in enumerate(magics):
+            mm = [1, [0, 3, b"", [1, b"GSSAPI", [mg]]], []] if i % 2 == 0 else [1, [7, b"1.2.3", [mg]], []]
+            pm = msgs.pack(mm)
+            for cut in range(1, len(pm)):
+                chunks = [pm[:cut], pm[cut:]]
+                out.append({"role": 1, "pre": [], "msgs": [mm], "chunks": chunks, "calls": [[RECV, c] for c in chunks], "meta": None})
         # the same stream with zero-padded long-form lengths, cut once at every offset
         import random
 
